@@ -112,7 +112,7 @@ def replay_path(prop, ob):
     return os.path.join(d, '%s_%s.json' % (safe, h))
 
 
-def run_property(prop, tier='quick', repo=None, write=True, out=sys.stdout, prog=None):
+def run_property(prop, tier='quick', repo=None, write=True, out=sys.stdout, prog=None, extra_coverage=None):
     """Run all rules of one property.  Returns (exit_code, ctx)."""
     t0 = time.time()
     seed = int(os.environ.get('VERIF_SEED', '0') or 0)
@@ -145,7 +145,8 @@ def run_property(prop, tier='quick', repo=None, write=True, out=sys.stdout, prog
     seen = {}
     for o in obs:
         k = o.key()
-        if k not in seen or (seen[k].verdict == MET and o.verdict != MET):
+        rank = {MET: 0, UNDECIDED: 1, VIOLATED: 2}
+        if k not in seen or rank.get(o.verdict, 0) > rank.get(seen[k].verdict, 0):
             seen[k] = o
     uniq = list(seen.values())
     viol = [o for o in uniq if o.verdict == VIOLATED]
@@ -186,11 +187,11 @@ def run_property(prop, tier='quick', repo=None, write=True, out=sys.stdout, prog
 
     wall = time.time() - t0
     if write:
-        write_evidence(prop, tier, seed, ctx, uniq, unlisted, listed, wall, mod)
+        write_evidence(prop, tier, seed, ctx, uniq, unlisted, listed, wall, mod, extra_coverage)
     return (1 if unlisted else 0), ctx
 
 
-def write_evidence(prop, tier, seed, ctx, uniq, unlisted, listed, wall, mod):
+def write_evidence(prop, tier, seed, ctx, uniq, unlisted, listed, wall, mod, extra_coverage=None):
     prog = ctx.prog
     nontrivial = {(o.rule, o.construct, o.statement) for o in uniq if o.nontrivial}
     samples = []
@@ -229,6 +230,8 @@ def write_evidence(prop, tier, seed, ctx, uniq, unlisted, listed, wall, mod):
         does_not_decide=getattr(mod, 'DOES_NOT_DECIDE', ''),
         exhaustive=False,
     )
+    if extra_coverage:
+        cov.update(extra_coverage)
     ev = dict(property_id=prop, tier=tier, seed=seed, level='other', coverage=cov,
               assumptions=list(getattr(mod, 'ASSUMPTIONS', [])) + [
                   'Python ast and the Cython parser represent the source faithfully',
